@@ -428,7 +428,7 @@ func (vc *FnVC) loopInvariants(li *loopInfo) []Clause {
 	if li.spec != nil {
 		invs = append(invs, li.spec.Invariants...)
 	}
-	invs = append(invs, vc.houdini[li.header]...)
+	invs = append(invs, vc.houdiniByOrd[li.ordinal]...)
 	return invs
 }
 
@@ -776,7 +776,9 @@ func (vc *FnVC) indexAddr(st *State, ia *ssa.IndexAddr) *Val {
 		return &Val{T: ia.Type(), S: "1", Addr: &Addr{Kind: "elem", Key: k.Name, Base: sx("s.base", x.S), Idx: idx, Elem: t.Elem()}}
 	case *types.Pointer: // pointer to array
 		at := t.Elem().Underlying().(*types.Array)
-		vc.safety(st, "index", vc.srcText(ia, ia), smtAnd(sx("<=", "0", i.S), sx("<", i.S, fmt.Sprint(at.Len()))))
+		if c, ok := constIntOf(ia.Index); !ok || c < 0 || c >= at.Len() {
+			vc.safety(st, "index", vc.srcText(ia, ia), smtAnd(sx("<=", "0", i.S), sx("<", i.S, fmt.Sprint(at.Len()))))
+		}
 		pa := vc.addrOf(st, x)
 		if pa == nil || sortOf(at.Elem()) == "" {
 			vc.note("index into array of %s havocked", at.Elem())
@@ -913,7 +915,9 @@ func (vc *FnVC) sliceOp(st *State, s *ssa.Slice) *Val {
 		if s.High != nil {
 			hi = vc.val(st, s.High).S
 		}
-		vc.safety(st, "slice", what, smtAnd(sx("<=", "0", lo), sx("<=", lo, hi), sx("<=", hi, n)))
+		if s.Low != nil || s.High != nil {
+			vc.safety(st, "slice", what, smtAnd(sx("<=", "0", lo), sx("<=", lo, hi), sx("<=", hi, n)))
+		}
 		if pa := vc.addrOf(st, x); pa != nil && sortOf(at.Elem()) != "" {
 			// materialise the array as a fresh backing store holding its current contents
 			// (later writes through the array variable are not reflected in the slice: noted)
